@@ -242,4 +242,65 @@ theorem wake_once (ops : List LocalWaker.Op) (op : LocalWaker.Op) (h : op = .wak
 example : (LocalWaker.step (LocalWaker.run [.register 1, .register 2]) .wake).2 = .woke (some 2) := by decide
 example : (LocalWaker.step (LocalWaker.run [.register 1, .register 2, .wake]) .wake).2 = .woke none := by decide
 
+/-- **Re-entrancy adds no behaviour (Counter).**  What a taking task and the next asker do from inside
+`wake()` is what the same two calls do as ordinary operations, through any live handle `h`, right after
+the drop: `stepRe s (drop g)` is the history `[drop g, acquire h, available h (w - 4)]` (or `[drop g]`
+when nobody took).  So every theorem about histories covers re-entrant executions too. -/
+theorem callback_is_sequential (s s' : Sys) (g h : Nat) (os : List Obs) (hs : stepRe s (.drop g) = some (s', os))
+    (hh : s.hasHandle h = true) :
+    (∃ w, run s [.drop g, .acquire h, .available h (w - 4)] = some (s', os)) ∨ run s [.drop g] = some (s', os) := by
+  simp only [stepRe] at hs
+  split at hs
+  · simp at hs
+  · rename_i s1 o hst
+    simp only [Option.some.injEq, Prod.mk.injEq] at hs; obtain ⟨h1, h2⟩ := hs; subst h1; subst h2
+    have hh1 : s1.hasHandle h = true := by
+      simp only [step] at hst; split at hst
+      · simp only [Option.some.injEq, Prod.mk.injEq] at hst; obtain ⟨h1, _⟩ := hst; subst h1
+        simp only [Sys.hasHandle] at hh ⊢; exact hh
+      · simp at hst
+    unfold Sys.callback
+    split
+    · rename_i w n
+      by_cases ht : takerWaker w = true
+      · left; refine ⟨w, ?_⟩
+        have hh2 : (s1.acquireCore.1).hasHandle h = true := by
+          simp only [Sys.acquireCore, Sys.hasHandle] at hh1 ⊢; exact hh1
+        have e2 : step s1 (.acquire h) = some (s1.acquireCore.1, s1.acquireCore.2) := by
+          simp only [step, hh1, if_true]; rfl
+        have e3 : step s1.acquireCore.1 (.available h (w - 4)) =
+            some ((s1.acquireCore.1.availableCore (w - 4)).1, (s1.acquireCore.1.availableCore (w - 4)).2) := by
+          simp only [step, hh2, if_true]; rfl
+        simp only [run, hst, e2, e3, ht, if_true]
+      · right; simp only [run, hst, ht]; simp
+    · right; simp only [run, hst]
+
+/-- The task registered **during** the wake callback is the one the next release wakes: after a
+releasing drop woke a taking task (which took the slot) the next asker `w - 4` is parked, and … -/
+example : ((run (init 1) [.acquire 0, .available 0 6]).bind (fun q => stepRe q.1 (.drop 0))).map (·.2) =
+    some [.dropped (some 6) (some (0, true)), .guard 1, .avail false] := by decide
+example : (((run (init 1) [.acquire 0, .available 0 6]).bind (fun q => stepRe q.1 (.drop 0))).bind
+      (fun q => stepRe q.1 (.drop 1))).map (·.2) = some [.dropped (some 2) none] := by decide
+
+/-- **Re-entrancy adds no behaviour (LocalWaker).**  A `wake` whose waker calls back into the same
+`LocalWaker` is the `wake` followed by the callback's operations … -/
+theorem reentrant_wake_is_sequential (l : LocalWaker) :
+    LocalWaker.stepRe l .wake = LocalWaker.runObs l (.wake :: LocalWaker.callback l.waker) := by
+  simp [LocalWaker.stepRe, LocalWaker.step, LocalWaker.runObs, LocalWaker.wake, LocalWaker.take]
+
+/-- … so **the waker registered last — also from inside a wake callback — is the one the next `wake`
+wakes, and the next `register` reports it**: the cell is emptied before the callback runs, not after. -/
+theorem registered_in_callback_survives (l : LocalWaker) (w : WakerId) (hw : l.waker = some w)
+    (hre : w = 4 ∨ w = 5) :
+    (LocalWaker.stepRe l .wake).2 = [.woke (some w), .registered false] ∧
+    (LocalWaker.stepRe l .wake).1.waker = some (if w = 4 then 1 else 5) ∧
+    (LocalWaker.step (LocalWaker.stepRe l .wake).1 .wake).2 = .woke (some (if w = 4 then 1 else 5)) ∧
+    (LocalWaker.step (LocalWaker.stepRe l .wake).1 (.register 0)).2 = .registered true := by
+  rcases hre with h | h <;> subst h <;>
+    simp [LocalWaker.stepRe, LocalWaker.step, LocalWaker.runObs, LocalWaker.wake, LocalWaker.take, LocalWaker.callback,
+      LocalWaker.register, hw]
+
+example : (LocalWaker.stepRe { waker := some 5 } .wake) = ({ waker := some 5 }, [.woke (some 5), .registered false]) := by decide
+example : (LocalWaker.stepRe { waker := some 2 } .wake) = ({ waker := none }, [.woke (some 2)]) := by decide
+
 end ActixNet.C17
